@@ -33,7 +33,7 @@ CFG = dict(
     checker="check_case",
     n=dict(quick=120, thorough=6000),
     shard=400,
-    deps=["C02", "C04", "C07"],
+    deps=["C02", "C03", "C04", "C05", "C07", "C43"],
     classify=classify,
     rule="datastore histories of 30-200 events over a universe of 3 workload endpoints (2 local, 1 remote), 2 host endpoints, 3 profiles "
          "(rules + labels-to-apply; endpoints may also list the namespace profile kns.ns1 and a missing profile), 3 tiers, 4 policies (3 global + 1 namespaced; tier default/tier-1/tier-2 possibly absent, order "
@@ -62,9 +62,14 @@ CFG = dict(
              "index), C07 (label inheritance index), each tied to its Go code by its own correspondence run",
              "Go driver harness/C01/cmd and the add-only shim harness/C01/shims/felix/calc/zz_verif_c01.go (registers one extra, "
              "recording PolicyMatchListener); overlay build, tag verif"],
-    assumptions=["the composition theorem is instantiated only for nodes that have a Coq model; ARC, rule scanner, policy resolver/sorter, "
-                 "L3/VXLAN resolvers, encapsulation resolver, passthru, profile decoder enter as nodes with a stated function-of-state "
-                 "hypothesis (see Props.v); live-migration, Istio, BGP-peer, service index, config batching are outside the generated universe",
+    assumptions=["c01_history_independent (six slices + sequencer) still assumes: the sequencer contract of the merged callback stream "
+                 "(contract6; checked per message on the real graph by every correspondence case) and, per slice, its FEEDER and EMITTER: "
+                 "the nodes PolicyResolver+Sorter (C03), ValidationFilter+ARC (C05), IP set member index (C04), L3RouteResolver (C43), label "
+                 "index (C07), EventSequencer (C02), RuleScanner reference counting, dispatcher routing, generic passthru and the flusher are "
+                 "discharged by theorems; assumed without a model: VXLANResolver, EncapsulationResolver, the RuleScanner's rule conversion "
+                 "(ParsedRules), ModelWorkloadEndpointToProto/tierInfoToProtoTierInfo, the ARC->resolver match plumbing, the abstraction of "
+                 "datastore values to each node model's operations; live-migration, Istio, BGP-peer, service index, config batching are "
+                 "outside the generated universe",
                  "EventSequencer config object is a stub that never reports a change: ConfigUpdate messages are not part of the compared state"],
 )
 
@@ -95,10 +100,11 @@ def replay(ctx, path):
 
 MANIFEST = dict(
     category="proof",
-    text="Generic composition theorem over an abstract calculation graph (synchronous pipelines of state machines): if every node's "
-         "flushed output is a function of the net state of its inputs, so is the whole graph's dataplane, hence history-independent; "
-         "instantiated with the event sequencer (C02 net effect), the IP set member index (C04) and the label inheritance index (C07); "
-         "the remaining nodes enter by stated hypotheses (partial).  Correspondence: the REAL calculation graph is driven with "
+    text="Generic composition theorems over an abstract calculation graph (synchronous pipelines of state machines: producer->consumer, "
+         "dispatcher fan-out, fan-in of slices writing disjoint object kinds into the one sequencer): history-free nodes compose, hence the "
+         "flushed dataplane is a function of the current datastore state; whole-graph theorem over six slices (feeder;node;emitter) with the "
+         "nodes discharged by C02/C03/C04/C05/C07/C43 theorems plus proved RuleScanner reference counting, dispatcher routing, passthru, "
+         "flusher; feeders/emitters and two resolvers remain explicit hypotheses (partial); closed instances without hypotheses.  Correspondence: the REAL calculation graph is driven with "
          "generated histories and compared, inside Coq, with a freshly started graph fed the final state (dataplane fold of both "
          "message streams, plus C02's per-message reference-closedness on the whole graph).",
     note="Partial by design: ARC / rule scanner / policy resolver+sorter / L3+VXLAN resolvers / encapsulation resolver are hypotheses of "
